@@ -478,7 +478,7 @@ func (ex *Explorer) runPath(h *Harness, ld *Loaded, prefix []Decision) {
 	for f, n := range in.stubsUsed {
 		res.Stubs[f] += n
 	}
-	if status == "ok" || status == "panic" || status == "blocked" {
+	if status != "engine-error" {
 		for c := range p.covers {
 			res.Covers[c]++
 		}
